@@ -2,6 +2,11 @@ import PV.Model.Eval
 import PV.Model.Ops
 import PV.Model.Traverse
 import PV.Driver.GAOps
+import PV.Driver.PickleOps
+import PV.Driver.DiffOps
+import PV.Driver.CoeffOps
+import PV.Driver.CseOps
+import PV.Driver.ImpOps
 import PV.Driver.AlgoOps
 import PV.Driver.SyntaxOps
 import PV.Driver.DispatchOps
@@ -179,24 +184,20 @@ def handleTraverse : Sexp → Option Sexp
     | none => some (bad "flops")
   | _ => none
 
+/-- per-property request handlers, tried in order (each returns `none` for foreign requests) -/
+def handlers : List (Sexp → Option Sexp) :=
+  [handleGA, handleAlgo, handleSyntax, handleDispatch, handleTraverse, handleOps
+   , handleImp
+   , handleCse
+   , handleCoeff
+   , handleDiff
+   , handlePickle
+   -- HANDLERS
+  ]
+
 def handle (req : Sexp) : Sexp :=
-  match handleGA req with
+  match handlers.findSome? (fun h => h req) with
   | some r => r
-  | none =>
-  match handleAlgo req with
-  | some r => r
-  | none =>
-  match handleSyntax req with
-  | some r => r
-  | none =>
-  match handleDispatch req with
-  | some r => r
-  | none =>
-  match handleTraverse req with
-  | some r => r
-  | none =>
-  match handleOps req with
-    | some r => r
-    | none => handleCore req
+  | none => handleCore req
 
 end PV.Driver
